@@ -52,6 +52,11 @@ PROPS = {
     'C18': dict(fn=p_C18, level='proof', explanation='Effect summary of the ControlChange arm for a symbolic controller number and value, per dispatch arm, against the routing table of C18; reset_controllers vs constructor defaults; pitch-bend term through the dependency conversion (two pieces), monotone with MSB weight 128 x LSB.'),
 }
 
+DEFAULT_NOTE = ('Trusted base: rustc MIR construction and const evaluation; the library models of sa/models.py; the analyser itself. '
+                'Floats are reasoned about over the reals (rounding slack as stated in DESIGN.md). Decides the clauses listed in DESIGN.md §6 for this property; '
+                'clauses listed there as not decided are not claimed.')
+NOT_APPLICABLE = {}
+
 ASSUMPTIONS = {
     'common': ['midi_types newtypes hold 7-bit / 4-bit values (established by R-PARSER: constructed from data bytes < 0x80 and byte & 0x0F)',
                'library models as listed in trusted_base'],
